@@ -503,7 +503,7 @@ var ruleH4 = &Rule{
 	ID:    "H4",
 	Floor: 1,
 	Doc: "memoised sub-plans do not depend on the window end: where a planner's Process stores the statement produced by a sub-planner in a memo cell (written only while empty, so it is reused by every later execution of the plan), " +
-		"no function reachable from that sub-planner call may read PlannerContext.To — the window end advances on every execution (live tail), a frozen upper bound excludes everything newer than the first execution; a frozen lower bound only widens",
+		"no function reachable from that sub-planner call may read PlannerContext.To (or a field of a window object the value was merely copied into; copying it there is not a read) — the window end advances on every execution (live tail), a frozen upper bound excludes everything newer than the first execution; a frozen lower bound only widens",
 	Run: func(c *Ctx) []Obl {
 		g := c.CG()
 		var obls []Obl
@@ -511,16 +511,64 @@ var ruleH4 = &Rule{
 		if shp == nil {
 			return []Obl{{Key: "shared", Pos: "-", Status: Undecided, Msg: "package not loaded"}}
 		}
+		// fields that hold the window end: PlannerContext.To and, transitively, every struct field a load of such a field is merely
+		// copied into (a window object built from the context); a function reads the window end when it uses such a load for
+		// anything else
+		endFields := map[string]bool{}
+		if nt, ok := shp.Pkg.Scope().Lookup("PlannerContext").Type().(*types.Named); ok {
+			if st, ok := nt.Underlying().(*types.Struct); ok {
+				for i := 0; i < st.NumFields(); i++ {
+					if st.Field(i).Name() == "To" {
+						endFields[fieldKey(types.NewPointer(nt), i)] = true
+					}
+				}
+			}
+		}
+		if len(endFields) == 0 {
+			return []Obl{{Key: "PlannerContext.To", Pos: "-", Status: Undecided, Msg: "field not found"}}
+		}
 		readsTo := map[*ssa.Function]bool{}
-		for _, fn := range moduleFuncs(g) {
-			for _, b := range fn.Blocks {
-				for _, ins := range b.Instrs {
-					if fa, ok := ins.(*ssa.FieldAddr); ok {
-						if pt, ok := fa.X.Type().Underlying().(*types.Pointer); ok {
-							if nt := namedOf(pt.Elem()); nt != nil && nt.Obj().Name() == "PlannerContext" {
-								if st, ok := nt.Underlying().(*types.Struct); ok && st.Field(fa.Field).Name() == "To" {
+		for changed := true; changed; {
+			changed = false
+			readsTo = map[*ssa.Function]bool{}
+			for _, fn := range moduleFuncs(g) {
+				for _, b := range fn.Blocks {
+					for _, ins := range b.Instrs {
+						fa, ok := ins.(*ssa.FieldAddr)
+						if !ok || !endFields[fieldKey(fa.X.Type(), fa.Field)] || fa.Referrers() == nil {
+							continue
+						}
+						for _, r := range *fa.Referrers() {
+							ld, ok := r.(*ssa.UnOp)
+							if !ok || ld.Op != token.MUL {
+								// a store into the field is not a read; anything else (address taken) is
+								if st, isSt := r.(*ssa.Store); !isSt || st.Addr != ssa.Value(fa) {
 									readsTo[fn] = true
 								}
+								continue
+							}
+							onlyCopied := ld.Referrers() != nil && len(*ld.Referrers()) > 0
+							if ld.Referrers() != nil {
+								for _, u := range *ld.Referrers() {
+									st, isSt := u.(*ssa.Store)
+									tf, isF := (ssa.Value)(nil), false
+									if isSt && st.Val == ssa.Value(ld) {
+										tf, isF = st.Addr, true
+									}
+									tfa, okF := tf.(*ssa.FieldAddr)
+									if !isF || !okF {
+										onlyCopied = false
+										continue
+									}
+									k := fieldKey(tfa.X.Type(), tfa.Field)
+									if !endFields[k] {
+										endFields[k] = true
+										changed = true
+									}
+								}
+							}
+							if !onlyCopied {
+								readsTo[fn] = true
 							}
 						}
 					}
@@ -692,6 +740,13 @@ func accessPath(v ssa.Value) (ssa.Value, []int) {
 			path = append([]int{x.Field}, path...)
 			v = x.X
 			continue
+		case *ssa.FieldAddr:
+			// the address chain under a load: &(&s.a).b
+			if len(path) > 0 {
+				path = append([]int{x.Field}, path...)
+				v = x.X
+				continue
+			}
 		}
 		break
 	}
